@@ -802,7 +802,7 @@ REGISTRY = {
     'C20': dict(modules=['LibconfigModel.Properties.C20', 'LibconfigModel.Properties.C20File', 'LibconfigModel.Properties.Skeleton', 'LibconfigModel.Properties.C20Buffer'], run=run_C20, assumptions=COMMON_ASSUMPTIONS + ['the pointer arithmetic of yy_get_next_buffer (generated flex code) is outside the model; it is exercised at the 8/16/32 KiB boundaries under ASan']),
     'C15': dict(modules=['LibconfigModel.Properties.C15'], run=run_C15, assumptions=COMMON_ASSUMPTIONS + ['the comma-decimal locale is synthesised from C.utf8 by patching the radix byte of LC_NUMERIC (the sandbox has no other locales)', 'glibc newlocale with a NULL base yields the "C" locale in every category']),
     'C12': dict(modules=['LibconfigModel.Properties.C12'], run=run_C12, assumptions=COMMON_ASSUMPTIONS + ['stdio reports a failed write(2) through fflush()/ferror(); a successful fclose() means the kernel accepted all data']),
-    'C09': dict(modules=['LibconfigModel.Properties.C09'], run=run_C09, assumptions=COMMON_ASSUMPTIONS),
+    'C09': dict(modules=['LibconfigModel.Properties.C09', 'LibconfigModel.Properties.C09Line'], run=run_C09, assumptions=COMMON_ASSUMPTIONS),
     'C08': dict(modules=['LibconfigModel.Properties.C08', 'LibconfigModel.Properties.C08Float'], run=run_C08, assumptions=COMMON_ASSUMPTIONS),
     'C02': dict(modules=['LibconfigModel.Properties.C02', 'LibconfigModel.Properties.C02Complete', 'LibconfigModel.Properties.C02Denote', 'LibconfigModel.Properties.Bridge', 'LibconfigModel.Properties.Skeleton'], run=run_C02, assumptions=COMMON_ASSUMPTIONS),
     'C04': dict(modules=['LibconfigModel.Properties.C04', 'LibconfigModel.Properties.C04Read', 'LibconfigModel.Properties.Bridge'], run=run_C04, assumptions=COMMON_ASSUMPTIONS),
